@@ -342,3 +342,83 @@ pub mod strings {
         ensures r is Ok <==> opaque_ok(s@), r is Ok ==> r->Ok_0.chars() == opaque_enforced(s@),
     { unimplemented!() }
 }
+impl VxDisplay for CowStr { open spec fn disp(&self) -> Seq<char> { self.chars() } }
+
+// ---------------------------------------------------------------- types.rs: HMACKey (RFC 8489 9.1.1 short-term key, 9.2.2 long-term key)
+// third-party digests (crates md5, hmac_sha256): trusted, uninterpreted
+pub uninterp spec fn md5_spec(data: Seq<u8>) -> Seq<u8>;
+pub uninterp spec fn sha256_spec(data: Seq<u8>) -> Seq<u8>;
+pub mod md5 {
+    use super::*;
+    pub struct Digest(pub [u8; 16]);
+    #[verifier::external_body]
+    pub fn compute(data: &str) -> (r: Digest) ensures r.0@ == md5_spec(data.spec_bytes()) { unimplemented!() }
+}
+// common.rs sha256(): hmac_sha256::Hash::hash(s.as_bytes()).to_vec()
+#[verifier::external_body]
+pub fn sha256(s: &str) -> (r: Vec<u8>) ensures r@ == sha256_spec(s.spec_bytes()) { unimplemented!() }
+//@item! stun_rs :: mod types > enum CredentialMechanism
+impl Clone for CredentialMechanism { fn clone(&self) -> (r: Self) ensures r == *self { *self } }
+impl Copy for CredentialMechanism {}
+impl CredentialMechanism {
+//@item stun_rs :: mod types > impl CredentialMechanism > fn is_short_term
+//@tags C19
+//@spec
+    ensures r == (*self is ShortTerm),
+//@end
+//@item stun_rs :: mod types > impl CredentialMechanism > fn is_long_term
+//@tags C19
+//@spec
+    ensures r == (*self is LongTerm),
+//@end
+}
+//@item! stun_rs :: mod types > struct HMACKeyPriv
+//@item! stun_rs :: mod types > struct HMACKey
+// the long-term key input: username ":" OpaqueString(realm) ":" OpaqueString(password), UTF-8
+pub open spec fn lt_key_text(user: Seq<char>, realm: Seq<char>, password: Seq<char>) -> Seq<u8> {
+    vstd::utf8::encode_utf8(user + ":"@ + opaque_enforced(realm) + ":"@ + opaque_enforced(password))
+}
+impl HMACKey {
+    pub open spec fn bytes(&self) -> Seq<u8> { self.0.key@ }
+//@item stun_rs :: mod types > impl HMACKey > fn new_short_term
+//@tags C04 C19
+//@sig
+    pub fn new_short_term(password: &str) -> (r: Result<Self, StunError>)
+//@sub "opaque_string_enforce(password.as_ref())?" => "strings::opaque_string_enforce(password)?"
+//@spec
+    // the key is the OpaqueString-processed password, UTF-8
+    ensures r is Ok <==> opaque_ok(password@),
+        r is Ok ==> r->Ok_0.bytes() == vstd::utf8::encode_utf8(opaque_enforced(password@)) && r->Ok_0.0.mechanism is ShortTerm,
+//@end
+//@item stun_rs :: mod types > impl HMACKey > fn new_long_term
+//@tags C04 C19
+//@rules R1S
+//@sig
+    pub fn new_long_term(username: &str, realm: &str, password: &str, algorithm: &Algorithm) -> (r: Result<Self, StunError>)
+//@sub "opaque_string_enforce(realm.as_ref())?" => "strings::opaque_string_enforce(realm)?"
+//@sub "opaque_string_enforce(password.as_ref())?" => "strings::opaque_string_enforce(password)?"
+//@sub "username.as_ref()" => "username"
+//@sub "algorithm.as_ref()" => "algorithm"
+//@spec
+    // MD5 / SHA-256 of user:realm:password, the algorithm chosen by the PASSWORD-ALGORITHM value
+    ensures r is Ok <==> opaque_ok(realm@) && opaque_ok(password@) && (algorithm.algorithm is MD5 || algorithm.algorithm is SHA256),
+        r is Ok ==> r->Ok_0.0.mechanism is LongTerm && r->Ok_0.bytes() == (if algorithm.algorithm is MD5 {
+            md5_spec(lt_key_text(username@, realm@, password@)) } else { sha256_spec(lt_key_text(username@, realm@, password@)) }),
+//@end
+//@item stun_rs :: mod types > impl HMACKey > fn as_bytes
+//@tags C04 C19
+//@spec
+    ensures r@ == self.bytes(),
+//@end
+//@item stun_rs :: mod types > impl HMACKey > fn credential_mechanism
+//@tags C19
+//@spec
+    ensures r == self.0.mechanism,
+//@end
+//@item stun_rs :: mod types > impl HMACKey > fn get_key
+//@tags C04 C19
+//@spec
+    ensures r is Ok <==> (params.algorithm is MD5 || params.algorithm is SHA256),
+        r is Ok ==> r->Ok_0@ == (if params.algorithm is MD5 { md5_spec(key.spec_bytes()) } else { sha256_spec(key.spec_bytes()) }),
+//@end
+}
